@@ -3,7 +3,7 @@
     [wf] is the object invariant (sign is 1 or -1, at least one word, words < 2^64, a negative bignum is
     not zero; fixnums are 62-bit).  The right-hand sides are Coq's Z operations, i.e. the operations on the
     infinite two's-complement bit string (Z.testbit). *)
-From ChibiV Require Import Common.Words C17.Model C17.Spec C17.Proofs C17.ProofsOps.
+From ChibiV Require Import Common.Words C17.Model C17.Spec C17.Proofs C17.ProofsOps C17.ProofsShift C17.ProofsBitset C17.ProofsLength C17.ProofsCount.
 Local Open Scope Z_scope.
 
 (** sexp_set_twos_complement: the converted words are (-|n|) mod B^len *)
@@ -24,3 +24,37 @@ Print Assumptions bit_ior_Z.
 Theorem bit_xor_Z : forall x y, wf x -> wf y -> ival (bit_xor x y) = Z.lxor (ival x) (ival y).
 Proof. exact bit_xor_ok. Qed.
 Print Assumptions bit_xor_Z.
+
+(** sexp_arithmetic_shift: floor (x * 2^c), both directions, fixnum and bignum operands, any count *)
+Theorem arithmetic_shift_Z : forall x c, wf x ->
+  ival (arithmetic_shift x c) = if c <? 0 then ival x / 2 ^ (- c) else ival x * 2 ^ c.
+Proof. exact arithmetic_shift_ok. Qed.
+Print Assumptions arithmetic_shift_Z.
+
+(** sexp_bit_set_p: bit i of the infinite two's-complement string *)
+Theorem bit_set_Z : forall i x, 0 <= i -> wf x -> bit_set_p i x = Z.testbit (ival x) i.
+Proof. exact bit_set_ok. Qed.
+Print Assumptions bit_set_Z.
+
+(** sexp_integer_length (including integer_log2 and its 256-entry table, for every 64-bit word):
+    integer_length_spec n = bitlen (if n < 0 then lnot n else n), bitlen m = log2 m + 1 for m > 0, 0 for 0 *)
+Theorem integer_length_Z : forall x, wf x -> ival (integer_length x) = integer_length_spec (ival x).
+Proof. exact integer_length_ok. Qed.
+Print Assumptions integer_length_Z.
+
+Theorem integer_log2_word : forall w, isword w -> integer_log2 w = bitlen w.
+Proof. exact integer_log2_ok. Qed.
+Print Assumptions integer_log2_word.
+
+(** sexp_bit_count: the borrow loop over the words of a bignum, both signs, and the fixnum case.
+    PARTIAL: the premise [swar_correct] (the SWAR population count of ONE 64-bit word, bit.c:319-326,
+    equals the number of 1 bits) is not proved; the full statement is the same without that premise:
+      forall x, wf x -> ival (bit_count x) = bit_count_spec (ival x). *)
+Theorem bit_count_Z_partial : swar_correct -> forall x, wf x -> ival (bit_count x) = bit_count_spec (ival x).
+Proof. exact bit_count_ok. Qed.
+Print Assumptions bit_count_Z_partial.
+
+(** the spec's population count is the count of set bits (SRFI 151's wording) *)
+Theorem popcount_is_testbit_count : forall k n, 0 <= n < 2 ^ Z.of_nat k -> Zpopcount n = count_bits k n.
+Proof. exact Zpopcount_testbit. Qed.
+Print Assumptions popcount_is_testbit_count.
